@@ -27,3 +27,11 @@ add("C20", "round trip through the package's writer/reader on a grid pool + Hypo
     "84 (thorough 400+) grid specifications are written and read back and compared bit-for-bit incl. sparse format and entry order; thousands of generated GROMACS-style energy files (0..13 '#' lines, >=13 header lines, 1..10 legends, random padding) must be read into the exact frame (names, order, float(token) values), the single-column getter and the csv round trip must agree.",
     "Trusted: Python float(), numpy, pandas' csv writer. Values carry <=12 significant digits (measured limit of pandas' default float parser, not a property of the reader).",
     "DESIGN.md section 5, C20")
+add("C07", "enumeration of (algorithm, N) against first-principles validity predicates (KD-tree separation, canonical half, double-cover layout)",
+    "Quick: every N in 1..50 (3D) / 1..42 (4D) plus level boundaries and seeded larger N; thorough: every N up to 2563 (ico), 1539 (cube3D), 800 (randomS), 272 (cube4D, randomQ), fulldiv 8/40/272. Each grid: exact shape, unit norms (1e-12), pairwise separation incl. the stated lower bounds for polytope grids, canonical half, no two rows the same rotation, double cover == [G; -G] bit-exact, N=1 names give identity / z.",
+    "Trusted: numpy, scipy cKDTree. fulldiv 2080 is beyond the cost bound.",
+    "DESIGN.md section 5, C07")
+add("C18", "Hypothesis rule-based state machine over one polytope object against exact integer / barycentric lattices",
+    "Histories of divide / get_nodes / get_half_of_hypercube calls (generated N and projection flags) on ico, cube3D (to level 3 quick, 4 thorough) and the hypercube (level 1 / 2), plus one fixed history per polytope visiting every level to the bound; after every step the node set must match the independently built lattice one-to-one (1e-9), projections be node/|node|, the set be closed under negation, rows of earlier levels precede later ones, every earlier getter result stay a bit-exact prefix, and the half selection hold exactly one of each antipodal pair in index order.",
+    "Trusted: the integer lattice generators and the independent icosahedron vertex/face table in props/c18.py (closed-form count self-test), scipy cKDTree.",
+    "DESIGN.md section 5, C18")
